@@ -51,6 +51,14 @@ def blocks_of(kind, atoms, mtxs):
         return [[("notify1", "cv")]]
     if kind == "nall":
         return [[("notifyall", "cv")]]
+    if kind == "nwait":
+        return [[("nwait", "nt")]]
+    if kind == "notify":
+        return [[("notify", "nt")]]
+    if kind == "nwaitld":
+        return [[("nwait", "nt"), ("ld", o)] for o in atoms]
+    if kind == "stnotify":
+        return [[("st", o), ("notify", "nt")] for o in atoms]
     if kind == "rdld":
         return [[("read", "l"), ("ld", o), ("unlockr", "l")] for o in atoms]
     if kind == "rdst":
@@ -223,7 +231,7 @@ def to_dsl(p, name):
             elif op == "cvwait":
                 th.append(I("cvwait", o, o2=code[i + 1][1]))       # code[i + 1] (0-based) is the re-lock: its mutex
                 skip = 2                                               # "cvblock" and the re-lock are part of Condvar::wait
-            elif op in ("notify1", "notifyall"):
+            elif op in ("notify1", "notifyall", "nwait", "notify"):
                 th.append(I(op, o))
             elif op == "ntf":
                 pass
@@ -356,7 +364,8 @@ def run(ctx, spaces, bounds, sample, rng, want=("C01", "C15")):
                     continue
                 pr = sp["runs"][bi]
                 pres = {key_of(o["regs"], drops) if o["end"] == "ok" else "deadlock" for o in pr["res"]}
-                psch = {tuple(s) for s in pr["scheds"]} - ({tuple(pr["deadsched"])} if pr["deadsched"] else set())
+                # (negative entries are the spurious decisions of Notify::wait: part of the decision sequence, not of the schedule)
+                psch = {tuple(x for x in s if x >= 0) for s in pr["scheds"] if list(s) != list(pr["deadsched"])}
                 rsch = sched_seqs(r)              # the deadlocked iteration has no end event
                 if (use_results and not (pres <= real[b])) or (r["end"] in ("ok", "deadlock") and len(r.get("hook_events", [])) < 2900 and psch != rsch):
                     drift += 1
